@@ -17,13 +17,15 @@ harness had *sent before that log entry was recorded* (L_j = log length read jus
 sent; an entry with index >= L_j may already profit from it - lenient, never the other way round);
 every data string <= peer max packet when that is >= 4096.
 
-Family "rcv" (tested side receives): the puppet sends CHANNEL_DATA / EXTENDED_DATA(1) within the window
+Family "rcv" (tested side receives): the puppet sends CHANNEL_DATA / EXTENDED_DATA(1) and EXTENDED_DATA with other type
+codes (0, 2..6, 2^32-1: not delivered to any application, hence consumed exactly once, on arrival) within the window
 and packet size the tested side advertised; the application (harness main thread, one call at a time)
 calls recv / recv_stderr with generated sizes and set_combine_stderr(True / False) at generated moments (stderr data of
 any amount - below, around and above the window//10 grant threshold - may sit unread in the buffer at that moment:
 moving it into the stdout buffer is not consumption). After every step a sentinel round trip makes the log
-complete. Oracle at every step: sum(WINDOW_ADJUST sent by the tested side) <= bytes returned to the
-application so far. Client role also: the CHANNEL_OPEN advertises exactly the clamped request
+complete. Oracle at every step: sum(WINDOW_ADJUST sent by the tested side) <= min(bytes returned to the
+application so far, bytes the peer sent on the readable streams) + bytes of discarded extended-data types (reading
+bytes the peer never sent on a readable stream is not consumption of window). Client role also: the CHANNEL_OPEN advertises exactly the clamped request
 (window into [32768, 2^32-1], packet into [4096, 2^32-1]).
 
 Engine E4 (vlib.sched + vlib.chanbench: the real Channel on a fake transport, every lock operation, the
@@ -32,7 +34,7 @@ a switch point; the interleaving is a generated preemption list, fully determini
 Family "e4snd": 2-3 application tasks (send / send_stderr / sendall / sendall_stderr, small sizes so that
 the window matters) || one transport task delivering WINDOW_ADJUSTs through the real handler. Same history
 invariant, evaluated on the scheduler's totally ordered event log (adjust noted before it is delivered).
-Family "e4rcv": transport task feeding DATA / EXTENDED_DATA(1) within the advertised window || 1-2 application
+Family "e4rcv": transport task feeding DATA / EXTENDED_DATA(1) / EXTENDED_DATA(0|2|5) within the advertised window || 1-2 application
 tasks calling recv / recv_stderr / set_combine_stderr(True|False). At the moment every WINDOW_ADJUST reaches the transport's send point:
 sum(adjusts incl. this one) <= bytes fed - bytes still in the two pipes (= what applications took out).
 """
@@ -52,11 +54,11 @@ RULE = (
     "E3 puppet + E4 scheduler. snd: role x (window, max_packet) from {0,1,4095,4096,4097,32768,2^20,2^32-1}^2 x 1-4 sender threads (send/send_stderr/"
     "sendall/sendall_stderr, 0..200 KiB, blocking/timeout/non-blocking) x WINDOW_ADJUST plan (0,1,small,medium,2^32-1; at quiescence or "
     "racing); rcv: role x requested/advertised window and packet sizes across the clamp boundaries x generated interleaving of puppet "
-    "data/extended data (within the advertised window), application recv/recv_stderr sizes and set_combine_stderr(True/False) calls; non-trivial = snd: offered bytes > "
+    "data/extended data type 1 and types 0,2..6,2^32-1 (discarded on arrival = consumed once) (within the advertised window), application recv/recv_stderr sizes and set_combine_stderr(True/False) calls; non-trivial = snd: offered bytes > "
     "initial window (a sender had to wait for an adjust) or >= 2 sender threads; rcv: at least one WINDOW_ADJUST was observed; "
     "distinct by the whole case. E4 (real Channel on a fake transport under the deterministic scheduler, lock- and line-level switch points, "
     "generated preemption lists): e4snd = window {0,1,100,4095,4096,4097,32768} x max packet x 2-3 sender tasks (sizes 0..9000) || "
-    "transport task delivering 0-4 adjusts; e4rcv = window {32768,32769,40000} x transport task feeding <= 8 messages within the window || 1-2 "
+    "transport task delivering 0-4 adjusts; e4rcv = window {32768,32769,40000} x transport task feeding <= 8 messages (data / ext type 1 / ext types 0,2,5) within the window || 1-2 "
     "reader tasks (recv / recv_stderr / set_combine_stderr); non-trivial as above. e4snd 'tight' sub-family: 2-3 tasks with one blocking call each (sizes at/above a window from "
     "{1,100,4095,4096,4097}), no adjust before the final grant, preemptions directed at the switch points of _send between leaving the channel "
     "lock and the transmit (two senders allotted the same window bytes)"
@@ -283,24 +285,34 @@ def run_rcv(ctx, case):
         chan.settimeout(0.0)
         credit = adv_w
         sent = 0
-        consumed = 0
+        consumed = 0  # bound on what may have been granted: see below
+        read = 0  # bytes the application's recv/recv_stderr calls returned
+        legit = 0  # bytes the peer sent that an application CAN read (DATA, EXTENDED_DATA type 1)
+        discarded = 0  # bytes of extended-data types the tested side does not deliver: consumed once, on arrival
         granted = 0
         n_adjust = 0
         payload = bytes(range(256)) * 200
         steps = []
         for op in case["ops"]:
             kind, n = op
-            if kind in ("data", "ext"):
+            if kind in ("data", "ext") or kind.startswith("ext:"):
+                code = 1 if kind == "ext" else (int(kind[4:]) if kind != "data" else None)
+                if code is not None and code != 1:
+                    classes.append("rcv:ext-type-%s" % ("0" if code == 0 else ("2..5" if code <= 5 else ">5")))
                 n = min(n, credit)
                 while n > 0:
                     k = min(n, adv_p, len(payload))
                     if kind == "data":
                         env.puppet.send_raw_seq(peers.m_channel_data(env.tid, payload[:k]))
                     else:
-                        env.puppet.send_raw_seq(peers.m_channel_ext_data(env.tid, 1, payload[:k]))
+                        env.puppet.send_raw_seq(peers.m_channel_ext_data(env.tid, code, payload[:k]))
                     n -= k
                     credit -= k
                     sent += k
+                    if code is None or code == 1:
+                        legit += k
+                    else:
+                        discarded += k
             elif kind == "combine":
                 # every earlier message has been processed (sentinel round trip of the previous step), so this is what
                 # the application left unread on the stderr stream at the moment it flips combining
@@ -314,7 +326,12 @@ def run_rcv(ctx, case):
                 f = chan.recv if kind == "recv" else chan.recv_stderr
                 ready = chan.recv_ready() if kind == "recv" else chan.recv_stderr_ready()
                 if ready:
-                    consumed += len(f(n))
+                    read += len(f(n))
+                    if kind == "recv_stderr" and discarded:
+                        classes.append("rcv:stderr-read-after-discarded-ext-type")
+            # what the application has consumed: the bytes its reads returned, but never more than the peer sent on the streams
+            # an application can read; plus, once, the bytes of types that are discarded on arrival
+            consumed = min(read, legit) + discarded
             new = env.sync()
             for seq, ptype, body in new:
                 if ptype == 93 and body[:4] == R.u32(env.pid):
@@ -327,9 +344,10 @@ def run_rcv(ctx, case):
                 ctx.case(case, True, sorted(set(classes)))
                 ctx.violation(
                     "grant-at-most-consumed",
-                    "%s:after-%s" % (role, "arrival" if kind in ("data", "ext") else ("set_combine_stderr" if kind == "combine" else "read")),
+                    "%s:after-%s" % (role, "arrival" if (kind in ("data", "ext") or kind.startswith("ext:")) else ("set_combine_stderr" if kind == "combine" else "read")),
                     case,
-                    "window granted %d > consumed %d (sent %d); last steps (op, n, sent, consumed, granted): %r" % (granted, consumed, sent, steps[-4:]),
+                    "window granted %d > consumed %d (peer sent %d = %d readable + %d of discarded types; reads returned %d); last steps (op, n, sent, consumed, granted): %r"
+                    % (granted, consumed, sent, legit, discarded, read, steps[-4:]),
                 )
                 return
         ctx.case(case, n_adjust >= 1, sorted(set(classes)) + (["rcv:adjust-observed"] if n_adjust else []) + ["rcv:adv-window=%d" % adv_w])
@@ -361,7 +379,10 @@ req_sizes_p = st.one_of(st.none(), st.sampled_from([0, 1, 4095, 4096, 4097, 3276
 rcv_feed_op = st.tuples(st.sampled_from(["data", "data", "ext"]), st.one_of(st.sampled_from([1, 3276, 3277, 4096, 32768, 40000]), st.integers(1, 40000)))
 rcv_read_op = st.tuples(st.sampled_from(["recv", "recv", "recv_stderr"]), st.sampled_from([1, 100, 3276, 3277, 5000, 40000, 1 << 20]))
 # ("combine", 1|0) = set_combine_stderr(True|False)
-rcv_op = st.one_of(rcv_feed_op, rcv_feed_op, rcv_read_op, rcv_read_op, st.tuples(st.just("combine"), st.sampled_from([1, 1, 0])))
+# EXTENDED_DATA with a type code other than 1 ("ext:<code>"): RFC 4254 allows any code; the tested side does not deliver them
+RCV_EXT_CODES = ["ext:0", "ext:2", "ext:2", "ext:3", "ext:5", "ext:6", "ext:4294967295"]
+rcv_feedx_op = st.tuples(st.sampled_from(RCV_EXT_CODES), st.one_of(st.sampled_from([1, 3276, 3277, 4096, 32768]), st.integers(1, 40000)))
+rcv_op = st.one_of(rcv_feed_op, rcv_feed_op.map(lambda v: v), rcv_feedx_op, rcv_read_op, rcv_read_op.map(lambda v: v), st.tuples(st.just("combine"), st.sampled_from([1, 1, 0])))
 rcv_case = st.one_of(
     st.fixed_dictionaries(
         {
@@ -465,6 +486,16 @@ def run_e4snd(ctx, case):
         ctx.violation(bad[0], bad[1], case, bad[2])
 
 
+def _buffered(chan):
+    """Bytes sitting in the channel's two receive pipes (nobody has consumed them).  Observation through the pipes' private
+    arrays (reading them takes no lock, hence adds no switch point); when they are not there: 0, which turns the oracle into
+    'granted <= bytes fed' - weaker, never wrong."""
+    try:
+        return len(chan.in_buffer._buffer) + len(chan.in_stderr_buffer._buffer)
+    except AttributeError:
+        return 0
+
+
 def run_e4rcv(ctx, case):
     W = case["window"]
     sch, ft, chan = _bench(case, in_window=W, in_max_packet=32768)
@@ -477,7 +508,7 @@ def run_e4rcv(ctx, case):
             n = int.from_bytes(raw[5:9], "big")
             st_["granted"] += n
             st_["adjusts"] += 1
-            taken = st_["fed"] - len(chan.in_buffer._buffer) - len(chan.in_stderr_buffer._buffer)
+            taken = st_["fed"] - _buffered(chan)
             if st_["granted"] > taken:
                 st_["bad"] = "WINDOW_ADJUST(%d) by %s brings the granted total to %d; applications have taken %d bytes out of the pipes (fed %d)" % (n, sch.current_name(), st_["granted"], taken, st_["fed"])
         orig(m)
@@ -496,14 +527,17 @@ def run_e4rcv(ctx, case):
             if kind == "data":
                 ft.deliver(CB.MSG_CHANNEL_DATA, 1, data[:n])
             else:
-                ft.deliver(CB.MSG_CHANNEL_EXTENDED_DATA, 1, 1, data[:n])
+                code = 1 if kind == "ext" else int(kind[4:])
+                if code != 1:
+                    st_["combine"].add("e4rcv:ext-type-other-than-1")
+                ft.deliver(CB.MSG_CHANNEL_EXTENDED_DATA, 1, code, data[:n])
 
     def app(ops):
         def body():
             for kind, n in ops:
                 try:
                     if kind == "set_combine_stderr":
-                        unread = len(chan.in_stderr_buffer._buffer)  # what this task sees while it holds the baton
+                        unread = len(getattr(chan.in_stderr_buffer, "_buffer", b""))  # what this task sees while it holds the baton (class only)
                         if n and unread and not chan.combine_stderr:
                             st_["combine"].add("e4rcv:combine-on-with-unread-stderr:%s-grant-threshold" % ("above" if unread > W // 10 else "at-or-below"))
                         else:
@@ -568,7 +602,7 @@ e4rcv_case = st.fixed_dictionaries(
     {
         "fam": st.just("e4rcv"),
         "window": st.sampled_from([32768, 32769, 40000]),
-        "feeds": st.lists(st.tuples(st.sampled_from(["data", "data", "ext"]), st.one_of(st.sampled_from([1, 3276, 3277, 4096, 32768]), st.integers(1, 40000))), min_size=1, max_size=8),
+        "feeds": st.lists(st.tuples(st.sampled_from(["data", "data", "ext", "ext", "ext:2", "ext:0", "ext:5"]), st.one_of(st.sampled_from([1, 3276, 3277, 4096, 32768]), st.integers(1, 40000))), min_size=1, max_size=8),
         "apps": st.lists(st.lists(e4_rcv_app_op, min_size=1, max_size=6), min_size=1, max_size=2),
         "sched": S.schedule_strategy(max_pre=4, max_gap=50, max_forced=12),
         "trace": st.sampled_from([True, True, False]),
